@@ -2,6 +2,9 @@ import ParryModel.C04.Theorems1
 import ParryModel.C04.Theorems2
 import ParryModel.C04.Theorems3
 import ParryModel.C04.Theorems4
+import ParryModel.C04.Theorems5
+import ParryModel.C04.Theorems6
+import ParryModel.C04.Theorems7
 /-!
 # C04 property theorems (umbrella file)
 
@@ -12,4 +15,7 @@ import ParryModel.C04.Theorems4
 * `Theorems3.lean` — `gjk::minkowski_ray_cast` over an abstract simplex (lower-bound / supporting-normal / miss certificates),
   2-D ball, 2-D cuboid / Aabb and 2-D triangle casts, one step of the heightfield grid walk.
 * `Theorems4.lean` — composite shapes: best-first BVH ray cast = brute force over the parts (instantiates `C07.bestFirst_optimal`).
+* `Theorems5.lean` — completeness of the 3-D heightfield grid walk: the whole cast is the first hit of the whole surface.
+* `Theorems7.lean` — 2-D `clip_aabb_line` / Aabb normal cast = the 3-D functions on the embedded problem; transferred theorems.
+* `Theorems6.lean` — the boolean forms `intersects_local_ray` / `intersects_ray` (true iff the segment meets the shape).
 -/
